@@ -472,8 +472,8 @@ func c09Binary(ev *vlib.Evidence) {
 			ev.Violate("binary:host-without-a-connection-is-instructed-or-offered", map[string]interface{}{"http_connect_accepted": accepted, "peer_request_error": e, "peer_request_result": truncStr(string(res), 300)})
 		}
 	}
-	modes := []string{"close-frame-1000", "abrupt", "going-away-1001", "close-frame-1008"}
-	for k := 0; k < vlib.Scale(8, 40); k++ {
+	modes := []string{"close-frame-1000", "abrupt", "going-away-1001", "close-frame-1008", "null-frame-then-abrupt", "garbage-frame-then-close-frame-1000"}
+	for k := 0; k < vlib.Scale(12, 48); k++ {
 		mode := modes[k%len(modes)]
 		host := vlib.NewIdentity("c09bhost", k)
 		hc, err := wsDial(addr)
@@ -516,6 +516,15 @@ func c09Binary(ev *vlib.Evidence) {
 			hc.Close()
 		case "close-frame-1008":
 			hc.WriteControl(websocket.CloseMessage, websocket.FormatCloseMessage(websocket.ClosePolicyViolation, "x"), time.Now().Add(time.Second))
+			time.Sleep(50 * time.Millisecond)
+			hc.Close()
+		case "null-frame-then-abrupt":
+			hc.WriteMessage(websocket.TextMessage, []byte("null"))
+			time.Sleep(50 * time.Millisecond)
+			hc.UnderlyingConn().Close()
+		case "garbage-frame-then-close-frame-1000":
+			hc.WriteMessage(websocket.TextMessage, []byte(`[1,{"x":null}]`))
+			hc.WriteControl(websocket.CloseMessage, websocket.FormatCloseMessage(websocket.CloseNormalClosure, ""), time.Now().Add(time.Second))
 			time.Sleep(50 * time.Millisecond)
 			hc.Close()
 		default:
